@@ -83,6 +83,7 @@ def parseCall (tok : String) : Option (Op × Option Int) :=
         | "chewing_kbtype_hasNext", [] => some .kbHasNext
         | "chewing_kbtype_String", [a] => some (.kbString (natOf a))
         | "chewing_kbtype_String_static", [] => some .kbStringStatic
+        | "chewing_Reset", [] => some .reset
         | "chewing_get_phoneSeq", [a, n] => some (.heapGet (natOf a) (.u16slice (natOf n)))
         | "chewing_free", [a] => some (.free (natOf a))
         | _, [a] => if heapCStringFns.contains f then some (.heapGet (natOf a) .cstring) else none
